@@ -25,6 +25,21 @@ Proof.
   destruct (Rltb_spec d (- tol)); split; intros; try discriminate; auto; lra.
 Qed.
 
+(* ---- snapping: a vertex closer to the plane than the tolerance counts as lying on it ------------------------- *)
+Lemma snap_cases tol d : 0 <= tol ->
+  (snap ROps tol d = 0 /\ - tol <= d <= tol) \/ (snap ROps tol d = d /\ (tol < d \/ d < - tol)).
+Proof.
+  intros Ht. unfold snap, n0; rops. destruct (Rleb_spec (Rabs d) tol) as [H|H].
+  - left. split; [reflexivity|]. unfold Rabs in H. destruct (Rcase_abs d); lra.
+  - right. split; [reflexivity|]. unfold Rabs in H. destruct (Rcase_abs d); lra.
+Qed.
+Lemma snap_range tol d : 0 <= tol -> snap ROps tol d = 0 \/ tol < snap ROps tol d \/ snap ROps tol d < - tol.
+Proof. intros Ht. destruct (snap_cases tol d Ht) as [[-> _]|[-> [H|H]]]; auto. Qed.
+Lemma snap_close tol d : 0 <= tol -> d - tol <= snap ROps tol d <= d + tol.
+Proof. intros Ht. destruct (snap_cases tol d Ht) as [[-> H]|[-> _]]; lra. Qed.
+Lemma snap_neg tol d : snap ROps tol (- d) = - snap ROps tol d.
+Proof. unfold snap, n0; rops. rewrite Rabs_Ropp. destruct (Rleb (Rabs d) tol); lra. Qed.
+
 (* ---- the 27 corner patterns ---------------------------------------------------------------------------------- *)
 Definition sgn_vals : list Z := [-1; 0; 1]%Z.
 Definition all_patterns : list sgn3 :=
@@ -53,15 +68,19 @@ Proof.
 Qed.
 Lemma vsign_in_vals tol d : In (vsign ROps tol d) sgn_vals.
 Proof. destruct (vsign_range tol d) as [ -> | [ -> | -> ] ]; cbn; auto. Qed.
+Lemma signs3_pattern tol ds : In (signs3 ROps tol ds) all_patterns.
+Proof. unfold signs3. apply in_all_patterns; apply vsign_in_vals. Qed.
 Lemma tri_signs_pattern tol n o t : In (tri_signs ROps tol n o t) all_patterns.
-Proof. unfold tri_signs. apply in_all_patterns; apply vsign_in_vals. Qed.
-Lemma case_ok_signs tol n o t m : case_ok (tri_signs ROps tol n o t) m = true.
+Proof. apply signs3_pattern. Qed.
+Lemma case_ok_signs tol ds m : case_ok (signs3 ROps tol ds) m = true.
 Proof.
-  pose proof sign_cases as H. rewrite forallb_forall in H. specialize (H _ (tri_signs_pattern tol n o t)).
+  pose proof sign_cases as H. rewrite forallb_forall in H. specialize (H _ (signs3_pattern tol ds)).
   rewrite forallb_forall in H. apply H. destruct m; cbn; auto.
 Qed.
-Lemma sget_tri_signs tol n o t k : (k < 3)%nat ->
-  sget (tri_signs ROps tol n o t) k = vsign ROps tol (plane_dot ROps n o (tget t k)).
+Lemma sget_signs3 tol ds k : (k < 3)%nat -> sget (signs3 ROps tol ds) k = vsign ROps tol (dget ds k).
+Proof. intros Hk. destruct k as [|[|[|k]]]; try lia; reflexivity. Qed.
+Lemma dget_tri_dists tol n o t k : (k < 3)%nat ->
+  dget (tri_dists ROps tol n o t) k = snap ROps tol (plane_dot ROps n o (tget t k)).
 Proof. intros Hk. destruct k as [|[|[|k]]]; try lia; reflexivity. Qed.
 
 (* ---- points on edges, barycentric combinations ------------------------------------------------------------ *)
@@ -87,15 +106,18 @@ Lemma plane_dot_lerp n o p q t :
   plane_dot ROps n o (lerp p q t) = plane_dot ROps n o p + t * (plane_dot ROps n o q - plane_dot ROps n o p).
 Proof. dvec. tunf. ring. Qed.
 
-(* the crossing point the code computes is the point of the edge's line with offset 0 (denominator not patched) *)
-Lemma int_point_lerp eps n o p q : plane_dot ROps n o p <> plane_dot ROps n o q ->
-  int_point ROps eps n o p q = lerp p q (plane_dot ROps n o p / (plane_dot ROps n o p - plane_dot ROps n o q)).
+(* the crossing point the code computes from the (snapped) distances a, b of the edge's ends (denominator not patched):
+   the point of the edge's line with parameter a / (a - b), where the interpolated distance vanishes *)
+Lemma int_point_lerp eps a b p q : a <> b -> int_point ROps eps a b p q = lerp p q (a / (a - b)).
 Proof.
-  intros Hne. dvec. unfold int_point. revert Hne. tunf. intros Hne.
-  match goal with |- context [Reqb ?a ?b] => destruct (Reqb_spec a b) as [E|E] end.
+  intros Hne. dvec. unfold int_point. tunf.
+  match goal with |- context [Reqb ?x ?y] => destruct (Reqb_spec x y) as [E|E] end.
   - exfalso. apply Hne. lra.
   - apply V3_ext; field; repeat split; intros E'; first [apply Hne; lra | apply E; lra].
 Qed.
-Lemma int_point_on_plane eps n o p q : plane_dot ROps n o p <> plane_dot ROps n o q ->
-  plane_dot ROps n o (int_point ROps eps n o p q) = 0.
-Proof. intros H. rewrite int_point_lerp, plane_dot_lerp by exact H. field. lra. Qed.
+Lemma crossing_param_zero a b : a <> b -> a + a / (a - b) * (b - a) = 0.
+Proof. intros H. field. intros E. apply H. lra. Qed.
+(* when neither end was snapped the new vertex lies exactly on the plane *)
+Lemma lerp_on_plane n o p q : plane_dot ROps n o p <> plane_dot ROps n o q ->
+  plane_dot ROps n o (lerp p q (plane_dot ROps n o p / (plane_dot ROps n o p - plane_dot ROps n o q))) = 0.
+Proof. intros H. rewrite plane_dot_lerp. field. lra. Qed.
